@@ -239,12 +239,14 @@ def doubling_cases(rng, tier, kind):
         g = sorted(set([min(vals) - 1, max(vals) + 1, min(vals), max(vals)] + [rng.choice(vals) for _ in range(12)] +
                        [(rng.choice(vals) + rng.choice(vals)) / 2 for _ in range(6)]))
         qs = [0.0, 1.0, 0.5, 0.25, 0.75, 0.001, 0.999] + [rng.randrange(1, 64) / 64.0 for _ in range(6)]
-        nd = 25 if n >= 1000 else 26                      # n * 2^nd is about 2^34
+        # double: up to about 2^34.  float: up to about 2^33 - beyond that single centroid weights pass 2^32 and wrap in their
+        # uint32 (known finding float_centroid_weight_wrap, exhibited by the separate case wrap_f0)
+        nd = (24 if n >= 1000 else 25) if kind == 'double' else (23 if n >= 700 else 24)
         for d in range(1, nd + 1):
             if kind == 'float': ops.append([13, 0, 1])
             else: ops.append([12, 0, 1, rng.choice([0, 1]), rng.choice([0, 1])])
             ops.append([4, 0, 1])
-            if d in (1, 8, 21, 22, 23, 24, nd):           # total weight crosses 2^31, 2^32, 2^33 for n = 1000
+            if d in (1, 8, 21, 22, 23, nd):               # total weight crosses 2^31, 2^32, 2^33 for n = 1000
                 ops.append([5, 0])
                 for wb, mode in ((1, 0), (0, 1), (1, 8)):
                     ops.append([12, 0, 2, wb, mode]); ops.append([5, 2])
@@ -259,6 +261,11 @@ def doubling_cases(rng, tier, kind):
 def gen_float(rng, tier):
     """tdigest<float>: the doubling cases plus ordinary histories over float-representable values"""
     cases = doubling_cases(rng, tier, 'float')
+    ops = [[1, 0, 100], [2, 0] + [d2b(float(i)) for i in range(1000)]]
+    for d in range(1, 26):
+        ops.append([13, 0, 1]); ops.append([4, 0, 1])
+        if d >= 22: ops.append([5, 0])
+    cases.append(dict(id='wrap_f0', ops=ops, tags=['doubling', 'centroid-weight>2^32']))
     for ci in range(30 if tier == 'quick' else 300):
         k = rng.choice([10, 20, 50, 100, 200]); c = cap(k)
         ops = [[1, 0, k], [1, 1, rng.choice([k, 100])]]
@@ -438,7 +445,11 @@ def oracle(case, irecs, mrecs):
             if R == [-1]:
                 fail('info_refused', 'is_empty/get_total_weight refused', i); continue
             if R[1] != g[0]:
-                fail('total_weight', 'total weight %d != number of accepted values %d' % (R[1], g[0]), i)
+                if case['id'].startswith('wrap_f'):
+                    fail('float_centroid_weight_wrap', 'tdigest<float>: total weight %d != number of accepted values %d after merging a digest with its '
+                         'own copy (a centroid weight passed 2^32 and wrapped in its uint32)' % (R[1], g[0]), i)
+                else:
+                    fail('total_weight', 'total weight %d != number of accepted values %d' % (R[1], g[0]), i)
             if (R[0] == 1) != (g[0] == 0):
                 fail('is_empty', 'is_empty %d with %d accepted values' % (R[0], g[0]), i)
             if R[0] == 1:
